@@ -22,7 +22,7 @@ def run(ctx, res):
         "build_pretty_string_item with identical arguments except the literal `coloring`; inside, `coloring` only selects the "
         "colour strings, which flow only into push_str and capacity computations; every colour constant is ESC [ digits m and "
         "no other constant contains ESC; R3 the backward scanner examines byte 0 (files whose first byte is a line break).  "
-        "R4 the code block is pushed through an unconditional replace(tab, four spaces); R5 no other text-rewriting operation is applied to listed text.  Not decided: columns, widths, marker placement (rendering arithmetic).")
+        "R4 the code block is pushed through an unconditional replace(tab, four spaces); R5 no other text-rewriting operation (trim / case / escape / split*) is applied to listed text; R6 / R6b the tab count that widens a marker column is taken over the marker's own line prefix (non-pausing line start) and counts exactly the tabs; R7 line map and find_line; R8 the frame: padding* `_start` line-break code-block padding* `‾end`, appended unconditionally and in this order, each padding from its own marker's counts; R9 the shown text is one contiguous chain of content slices from the first line's start to the last line's end (bounds evaluated by the interpreter), the highlighted part is the region itself, the numbers run over first..=last taking one line each, the line range is (line of first byte, line of last byte).  Not decided: the widths of the padding and of the number column (rendering arithmetic).")
     res.trusted += ["serde_json serialises a derived struct as an object with its field names, a unit variant as its name", "driver fact extraction and the abstract interpreter"]
     schema(ctx, res, "C16.R1")
     colour(ctx, res, "C16.R2")
